@@ -64,6 +64,10 @@ func (c *Case) actionText(i int, lang string) string {
 			}
 			terms = append(terms, fmt.Sprintf("%d*%s", r.Act.Coefs[k+1], v))
 		}
+		if len(r.Act.Coefs) > 0 && r.Act.Coefs[0]%2 == 1 {
+			// same value, written with several occurrences of $$ (every one of them must be substituted)
+			return txt + sep + "$$ = " + terms[0] + sep + "$$ = ($$ + " + strings.Join(append([]string{"0"}, terms[1:]...), " + ") + ") % " + fmt.Sprint(valMod)
+		}
 		return txt + sep + "$$ = (" + strings.Join(terms, " + ") + ") % " + fmt.Sprint(valMod)
 	}
 	// str
